@@ -207,7 +207,9 @@ func newWorld(depth int) *world {
 	for _, d := range chain {
 		es = append(es, entry{d, node{Dir: true}},
 			entry{d + "/victim", node{Dir: true}},
-			entry{d + "/victim/victim", file(true, "../victim", 9)},
+			entry{d + "/victim/victim", file(true, "../../victim", 9)},
+			entry{d + "/victim/notation-..", node{Dir: true}},
+			entry{d + "/victim/notation-../victim", file(true, "../victim", 9)},
 			entry{d + "/victim/notation-victim", file(true, "victim", 9)},
 			entry{d + "/x", file(true, "x", 1)})
 	}
